@@ -6,15 +6,23 @@
      - every derived field of every layer is right    lengths, header lengths, checksums, FCS, markers (Stack2, `ok`)
      - Ethernet frames are zero-padded to the minimum *)
 EXTENDS TraceIO, Stack2
+CONSTANT Prop      \* "C05": derived fields;  "C02": serialization is total, size-exact and layers never overwrite each other
 VARIABLE dummy
 vars == <<ex, l, dummy>>
 Init == \E s \in Starts : TraceInit(s) /\ dummy = 0
+SumSizes(hs) == LET F[i \in 0..Len(hs)] == IF i = 0 THEN 0 ELSE F[i - 1] + hs[i][2] + hs[i][3] IN F[Len(hs)]
+C05Cat(e) == /\ e.thrown = "" /\ Len(e.bytes) > 0
+             /\ LET d == Dissect2(e.entry, e.bytes, Len(e.kinds)) IN
+                (/\ Kinds2(d) = e.kinds
+                 /\ AllOK2(d)
+                 /\ PadOK2(e.entry, e.bytes, d)) = TRUE
+C02Cat(e) == /\ e.thrown = ""                                  \* "serialize() succeeds
+             /\ Len(e.bytes) = e.size                           \*  and returns exactly size() bytes,
+             /\ e.size = SumSizes(e.hs)                         \*  size() being the sum of all layers' header and trailer sizes"
+             /\ e.overwrite = << >>                             \* "each layer writes only inside its own header and trailer regions"
+             /\ e.again_same                                    \* (and doing it again gives the same bytes)
 Cat == /\ IsEvent("cat")
-       /\ Ev.thrown = "" /\ Len(Ev.bytes) > 0
-       /\ LET d == Dissect2(Ev.entry, Ev.bytes, Len(Ev.kinds)) IN
-          (/\ Kinds2(d) = Ev.kinds
-           /\ AllOK2(d)
-           /\ PadOK2(Ev.entry, Ev.bytes, d)) = TRUE
+       /\ (IF Prop = "C02" THEN C02Cat(Ev) ELSE C05Cat(Ev))
        /\ UNCHANGED dummy
 Next == Cat
 Spec == Init /\ [][Next]_vars
